@@ -219,7 +219,8 @@ def _driven(ctx, fn, where, case, expected=(), witness=None):
     except expected:
         raise
     except Exception as err:      # noqa
-        w = dict(error=repr(err))
+        import traceback as _tb
+        w = dict(error=repr(err), traceback=_tb.format_exc()[-1500:])
         if witness is not None:
             w.update(witness())
         _violation(ctx, 'exception:%s@%s' % (type(err).__name__, where), '%s raised %r' % (where, err), w, case)
